@@ -36,11 +36,22 @@ def WitSem (σ : St) (i : Nat) (th : Thread) (w : Out) : Prop :=
   | some o => th.invAt < th.witAt ∧ σ.lin[th.witAt - 1]? = some (i, o, w)
   | none => True
 
+/-- GetKeys after its lookups: everything it has accepted, and everything it can still accept, was
+    listed by the atomic GetKeys at the linearization point (`W`); it can only LOSE keys (a content
+    record reclaimed meanwhile), never invent one -/
+def KeysOk (s : Sys) (wit : Option Out) (todo : List Ver) (acc : List Key) : Prop :=
+  ∃ W, wit = some (.keys W) ∧ (∀ k ∈ acc, k ∈ W) ∧
+    ∀ v ∈ todo, v.cid < s.nextCid ∧ ((s.hasContent v.cid).isSome = true → v.key ∈ W)
+
+/-- the own-list snapshot of GetKeys is still what the atomic model reads, for every key -/
+def KOwnOk (s : Sys) (tx : TxRec) (own : List (Key × Ver)) : Prop := ∀ k, OwnOk s tx k (lookupKV own k)
+
 def Job (σ : St) (i : Nat) (todo : List Ver) : Prop := ∃ job, (i, job) ∈ σ.busy ∧ ∀ v ∈ todo, v ∈ job
 
 def PcInv (σ : St) (i : Nat) (th : Thread) : Pc → Prop
   | .idle => True
-  | .ret o => isKeys th.op = false → th.wit = some o
+  | .ret o => (isKeys th.op = false → th.wit = some o) ∧
+      (∀ ks, o = .keys ks → ∃ W, th.wit = some (.keys W) ∧ ∀ k ∈ ks, k ∈ W)
   | .setGuard t k c => allowed σ i t = true ∧ th.op = some (.set t k c)
   | .setContent t k c => allowed σ i t = true ∧ th.op = some (.set t k c) ∧ (σ.sys.regGet t).isSome = true ∧ k ≠ ""
   | .setStore t k c => allowed σ i t = true ∧ th.op = some (.set t k c) ∧ (σ.sys.regGet t).isSome = true ∧ k ≠ ""
@@ -53,8 +64,8 @@ def PcInv (σ : St) (i : Nat) (th : Thread) : Pc → Prop
       v.cid < σ.sys.nextCid ∧ (σ.sys.hasContent v.cid = none ∨ σ.sys.hasContent v.cid = v.val)
   | .keysReg t => allowed σ i t = true ∧ th.op = some (.keys t)
   | .keysOwn tx => RegOk σ i tx ∧ th.op = some (.keys tx.id)
-  | .keysBase tx _ => RegOk σ i tx ∧ th.op = some (.keys tx.id)
-  | .keysContent _ _ => isKeys th.op = true
+  | .keysBase tx own => RegOk σ i tx ∧ th.op = some (.keys tx.id) ∧ KOwnOk σ.sys tx own
+  | .keysContent todo acc => isKeys th.op = true ∧ KeysOk σ.sys th.wit todo acc
   | .beginLock t lvl => σ.owner t = some i ∧ t ≠ mainTx ∧ th.op = some (.begin t lvl)
   | .beginUnlock o => σ.hzLock = some i ∧ th.wit = some o
   | .commitRun t => allowed σ i t = true ∧ th.op = some (.commit t)
@@ -211,8 +222,21 @@ theorem TInv.stable {σ σ' : St} {i : Nat} (g : Guar σ σ' i) {j : Nat} (hij :
       · exact Or.inl e
     | keysReg t => rw [hpc] at hp; exact ⟨allowed_mono g hp.1, hp.2⟩
     | keysOwn tx => rw [hpc] at hp; exact ⟨hp.1.stable g hij, hp.2⟩
-    | keysBase tx own => rw [hpc] at hp; exact ⟨hp.1.stable g hij, hp.2⟩
-    | keysContent todo acc => rw [hpc] at hp; exact hp
+    | keysBase tx own =>
+      rw [hpc] at hp
+      exact ⟨hp.1.stable g hij, hp.2.1, fun k => (hp.2.2 k).stable g hij hp.1⟩
+    | keysContent todo acc =>
+      rw [hpc] at hp
+      obtain ⟨h1, W, hw, hacc, htodo⟩ := hp
+      refine ⟨h1, W, hw, hacc, ?_⟩
+      intro v hv
+      obtain ⟨hb, hin⟩ := htodo v hv
+      refine ⟨Nat.lt_of_lt_of_le hb fr.nextCid, ?_⟩
+      intro hs
+      apply hin
+      rcases fr.content v.cid hb with e | e
+      · rw [← e]; exact hs
+      · rw [e] at hs; cases hs
     | beginLock t lvl => rw [hpc] at hp; exact ⟨g.owner t j hp.1, hp.2⟩
     | beginUnlock o => rw [hpc] at hp; exact ⟨g.hz j hij hp.1, hp.2⟩
     | commitRun t => rw [hpc] at hp; exact ⟨allowed_mono g hp.1, hp.2⟩
